@@ -111,6 +111,19 @@ theorem ipsets_converge_no_stale_partial (c : Cfg) (hc : CfgOK c) (hm : CfgMain 
     rw [had.pres.1.2.1, post.desired] at this
     exact this
 
+/-- **Ownership is "prefix of"**: Felix owns a set name iff the name STARTS with one of the instance's prefixes (the
+versioned current and historic prefixes and the legacy set names, which the code also matches as prefixes).  A name
+that merely contains a prefix is foreign.  (Restates the model's `Cfg.owns`; the real `IPVersionConfig.OwnsIPSet` — a
+regexp — is tied to it by the oracle `owns-not-prefix-of` on every kernel set name of every run.) -/
+theorem owns_is_prefix_of (c : Cfg) (n : String) :
+    c.owns n = true ↔ ∃ p ∈ c.prefixes, p.toList.isPrefixOf n.toList = true := by
+  unfold Cfg.owns hasPrefix
+  simp [List.any_eq_true]
+
+example : realCfg.owns "cali40a" = true ∧ realCfg.owns "felix-masq-ipam-pools" = true ∧
+    realCfg.owns "backup-cali40s:web" = false ∧ realCfg.owns "k8s-felix-4-allow" = false ∧
+    realCfg.owns "fw_cali4t0" = false ∧ realCfg.owns "x-felix-masq-ipam-pools" = false := by decide
+
 /-- **swap_atomic**: what `writeUpdates` writes for a set `n` (for every visiting order `ord` of
 the member iterations).  Either the set is updated in place, and then every line targets `n`,
 only desired members are added and only undesired members deleted (the visible contents stay
